@@ -596,6 +596,37 @@ SUMS = {
 }
 
 
+def db_sequence(job):
+    """worker: the same imbalance solved with both databases one after the other in one
+    process (histories of length 2..4 over {shipped, automated}); every completion must use
+    compounds of the database in use.  Hidden state shared between matchers would show here
+    whatever the process did before."""
+    from synrbl.SynRuleImputer.synthetic_rule_matcher import SyntheticRuleMatcher
+
+    vt, q = job
+    want = dict(vt)
+    want["Q"] = q
+    bads = []
+    n = 0
+    for order in (("shipped", "automated"), ("automated", "shipped", "automated", "shipped")):
+        for sel, rk in (("all", "ion_priority"), ("best", "longest")):
+            for pos, name in enumerate(order):
+                rules = load_db(name)
+                by_smiles, _ = db_index(name)
+                data = dict(vt)
+                data["Q"] = q
+                sols = SyntheticRuleMatcher(rules, data, select=sel, ranking=rk).match()
+                n += 1
+                for sol in sols if isinstance(sols, list) else []:
+                    why = check_solution(sol, want, by_smiles)
+                    if why:
+                        bads.append(dict(sub="db-sequence", case={"vector": dict(vt), "q": q}, observed=sol, expected=want,
+                                         key=["db-sequence"] + why[0],
+                                         what="vector {} solved with {} at position {} of the history {} (select={} ranking={}): {}".format(
+                                             want, name, pos, list(order), sel, rk, why[1])))
+    return n, bads
+
+
 def spaces(tier):
     """[(db, vector tuple, full, charges)] in simplest-first order per family, and the
     bounds used"""
@@ -655,6 +686,17 @@ def run(tier, seed):
         per_key[k] = per_key.get(k, 0) + 1
         if per_key[k] <= 20:
             res.add(to_violation(b))
+
+    # (ii') both databases in one process, one after the other
+    seq_jobs = sorted({(j[1], q) for j in jobs if n_atoms(j[1]) <= 3 for q in j[3]})
+    rs = pmap("checks.c08:db_sequence", seq_jobs, chunk=64, seed=seed, timeout=7200)
+    tot["db_sequence_calls"] = sum(n for n, _ in rs)
+    for _, bb in rs:
+        for b in bb:
+            k = json.dumps(b["key"])
+            per_key[k] = per_key.get(k, 0) + 1
+            if per_key[k] <= 20:
+                res.add(to_violation(b))
 
     # (v)
     if tier == "thorough":
@@ -785,6 +827,14 @@ def replay(v):
                 w.case.get(k) == v.case.get(k) for k in ("select", "ranking", "side", "base")
             ):
                 out.append(w)
+    elif v.sub == "db-sequence":
+        vt = tuple(sorted((k, int(n)) for k, n in v.case["vector"].items()))
+        _, bads = db_sequence((vt, int(v.case["q"])))
+        for b in bads:
+            w = to_violation(b)
+            if w.key == v.key:
+                out.append(w)
+                break
     elif v.sub == "pipeline":
         r = pipe_batch(v.case["batch"], fresh=True)
         for b in r["bads"]:
